@@ -23,8 +23,9 @@ from ..harness import Section, DISCHARGED, FAILED, UNDECIDED
 from ..pyvc import regexlang as R
 
 HEX = "[0-9A-Fa-f]"
-# Python's str.isspace() restricted to latin-1 (what int()/float() strip)
-PYWS = "[\t-\r\x1c-\x1f \x85\xa0]"
+# what int()/float() strip, within latin-1: ASCII white space (NOT \x1c-\x1f, although str.isspace() is true for them) and the
+# non-ASCII spaces NEL and NBSP (found by the model validation: int('39\x1c') is refused)
+PYWS = "[\t-\r \x85\xa0]"
 
 # ---------------------------------------------------------------- spec languages (Python patterns)
 
@@ -46,7 +47,7 @@ def spec_based(dialect):
     return f"(?:{a}|{b})"
 
 
-SPEC_DECIMAL = r"[+-]?(?:\d+\.?\d*|\.\d+)(?:[eE][+-]?\d+)?"
+SPEC_DECIMAL = r"[+-]?(?:[0-9]+\.?[0-9]*|\.[0-9]+)(?:[eE][+-]?[0-9]+)?"
 # what int(s, 10) and float(s) accept (CPython, latin-1 inputs) - an assumed contract of the
 # interpreter, cross-checked natively on every run (section regex-model-validation)
 _DG = r"\d(?:_?\d)*"
@@ -54,18 +55,19 @@ PY_INT = fr"{PYWS}*[+-]?{_DG}{PYWS}*"
 PY_FLOAT = (fr"{PYWS}*[+-]?(?:(?:{_DG}\.?(?:{_DG})?|\.{_DG})(?:[eE][+-]?{_DG})?"
             r"|[iI][nN][fF](?:[iI][nN][iI][tT][yY])?|[nN][aA][nN])" + fr"{PYWS}*")
 # the ways PY_INT|PY_FLOAT exceeds SPEC_DECIMAL (open findings KF-C03/C17-python-number-syntax)
-DEV_WS = fr"(?:{PYWS}+[^\t-\r\x1c-\x1f \x85\xa0]+{PYWS}*|[^\t-\r\x1c-\x1f \x85\xa0]+{PYWS}+)"
+DEV_WS = "(?:[\t-\r \x85\xa0]+[^\t-\r \x85\xa0]+[\t-\r \x85\xa0]*|[^\t-\r \x85\xa0]+[\t-\r \x85\xa0]+)"
+DEV_NONASCII = r"(?:.|\n)*[^\x00-\x7f](?:.|\n)*"
 DEV_INFNAN = r"[+-]?(?:[iI][nN][fF](?:[iI][nN][iI][tT][yY])?|[nN][aA][nN])"
 DEV_UNDERSCORE = r"[^_]*\d_\d.*"
 
-STD_Y = r"(?!0000)\d{4}"
-STD_YMD = STD_Y + r"-(?:0[1-9]|1[0-2])-(?:0[1-9]|[12]\d|3[01])"
-STD_YJ = STD_Y + r"-(?:00[1-9]|0[1-9]\d|[12]\d\d|3[0-5]\d|36[0-6])"
+STD_Y = r"(?!0000)[0-9]{4}"
+STD_YMD = STD_Y + r"-(?:0[1-9]|1[0-2])-(?:0[1-9]|[12][0-9]|3[01])"
+STD_YJ = STD_Y + r"-(?:00[1-9]|0[1-9][0-9]|[12][0-9][0-9]|3[0-5][0-9]|36[0-6])"
 STD_DATE = f"(?:{STD_YMD}|{STD_YJ})"
-STD_HM = r"(?:[01]\d|2[0-3]):[0-5]\d"
-STD_TIME = STD_HM + r"(?::[0-5]\d(?:\.\d{1,6})?)?"
-STD_LEAP_TIME = STD_HM + r":60(?:\.\d+)?Z?"
-STD_OFF = r"[+-](?:0?\d|1[0-2])(?::[0-5]\d)?"
+STD_HM = r"(?:[01][0-9]|2[0-3]):[0-5][0-9]"
+STD_TIME = STD_HM + r"(?::[0-5][0-9](?:\.[0-9]{1,6})?)?"
+STD_LEAP_TIME = STD_HM + r":60(?:\.[0-9]+)?Z?"
+STD_OFF = r"[+-](?:0?[0-9]|1[0-2])(?::[0-5][0-9])?"
 
 
 # ---------------------------------------------------------------- code languages
@@ -334,7 +336,7 @@ def decimal_obligations(pid, dl):
     L = dl.L
     code = dl.py["decimal.code"]
     spec = re.compile(SPEC_DECIMAL)
-    dev = U(z(DEV_WS), z(DEV_INFNAN), z(DEV_UNDERSCORE))
+    dev = U(z(DEV_WS), z(DEV_INFNAN), z(DEV_UNDERSCORE), z(DEV_NONASCII))
 
     def conf_spec(w):
         return (spec.fullmatch(w) is not None and not code(w), {"decode_decimal_accepts": code(w)})
@@ -349,7 +351,7 @@ def decimal_obligations(pid, dl):
         (f"{n}:decimal:deviation-is-exactly-the-known-one", "subset", L["decimal.code"], z3.Union(L["decimal.spec"], dev),
          conf_new_dev, f"{pid}:{n}:regex:decimal:new-deviation",
          f"{n} decode_decimal accepts a text outside the grammar's decimal syntax and outside the recorded "
-         "deviation classes (white space, inf/nan words, digit-group underscores)"),
+         "deviation classes (white space, inf/nan words, digit-group underscores, non-ASCII digits)"),
     ]
     return out
 
@@ -524,7 +526,7 @@ def _alphabet_of(pattern):
     for ch in pattern:
         if ch.isalnum() or ch in "+-#.:_ TZ'\"":
             chars.add(ch)
-    chars |= set("0123456789+-#.:_eEZT")
+    chars |= set("0123456789+-#.:_eEZT") | {"\u0663", "\u00b2", "\u00a0", "\x1c", "\u2003"}      # + a non-ASCII digit, a superscript, odd white space
     return sorted(chars)
 
 
@@ -589,8 +591,117 @@ def sections_for(pid, ctx):
         "rejects seconds 60/61 and year 0000 through the datetime constructor; calendar validity of day-of-month and day 366 is "
         "outside the regular model (bounded driver)",
         "real_cls is float (the default); OmniDecoder's dateutil fallback is outside the model",
-        "regex translation: \\d = [0-9], \\s = Python white space within latin-1, IGNORECASE on ASCII letters, universe = all strings "
-        "(z3 characters); anchors ignored because every use is a full match",
+        "regex translation: \\d / \\s / \\w are the character sets CPython's re gives them (computed from the interpreter over all code "
+        "points), IGNORECASE on ASCII letters, universe = all strings (z3 characters); anchors ignored because every use is a full match",
     ]
     s.seconds = time.time() - t0
     return [s, validation_section(ctx, dialects)]
+
+
+# ---------------------------------------------------------------- substitution patterns (C01 C02 C07 C15)
+
+
+def _sub_patterns(func, self_obj):
+    """first arguments of the re.sub calls of *func*, evaluated with the function's own simple assignments
+    (names bound to expressions over self.grammar) -> list of (lineno, pattern text)"""
+    src = textwrap.dedent(inspect.getsource(func))
+    tree = ast.parse(src)
+    ns = {"self": self_obj, "re": re}
+    out = []
+    for n in ast.walk(tree):
+        if isinstance(n, ast.Assign) and len(n.targets) == 1 and isinstance(n.targets[0], ast.Name):
+            try:
+                ns[n.targets[0].id] = eval(compile(ast.Expression(n.value), "<assign>", "eval"), dict(ns))
+            except Exception:
+                pass
+    for n in ast.walk(tree):
+        if (isinstance(n, ast.Call) and isinstance(n.func, ast.Attribute) and n.func.attr == "sub"
+                and isinstance(n.func.value, ast.Name) and n.func.value.id == "re"):
+            e = ast.Expression(n.args[0])
+            ast.fix_missing_locations(e)
+            try:
+                out.append((n.lineno, eval(compile(e, "<re.sub>", "eval"), dict(ns)), ast.unparse(n.args[1])))
+            except Exception as ex:
+                out.append((n.lineno, None, repr(ex)))
+    return out
+
+
+def _cls(chars):
+    return "[" + "".join(re.escape(c) for c in chars) + "]"
+
+
+def substitution_section(pid):
+    import pvl.parser as P
+    import pvl.decoder as D
+    import pvl.grammar as G
+    s = Section("continuation-and-folding-patterns", "regex",
+                rule="the inline substitution patterns of OmniParser.parse (dash continuation) and ODLDecoder.decode_quoted_string "
+                     "(dash continuation, white-space folding) denote exactly the documented normalisations, for all strings")
+    t0 = time.time()
+    PYWS_ALL = "[\t-\r\x1c-\x1f \x85\xa0]"
+
+    def both(name, code_pat, spec_pat, what, native_check):
+        a, b = z(code_pat), z(spec_pat)
+        for tag, x, y in (("code-subset-of-spec", a, b), ("spec-subset-of-code", b, a)):
+            st, w, dt = decide("subset", x, y)
+            full = f"regex:{name}:{tag}"
+            if st == "unsat":
+                s.obl(full, DISCHARGED, "z3-seq", dt)
+            elif st == "sat":
+                ok, data = native_check(w)
+                if ok:
+                    s.obl(full, FAILED, "z3-seq", dt, detail=f"counterexample {w!r}")
+                    s.violation(f"{pid}:regex:{name}:{tag}", f"{what}: {w!r} {data}", {"witness": w, "obligation": full, **data}, full)
+                else:
+                    s.obl(full, UNDECIDED, "z3-seq", dt, detail=f"witness {w!r} not reproduced natively {data}")
+            else:
+                s.obl(full, UNDECIDED, "z3-seq", dt, detail=str(w))
+
+    # OmniParser.parse: a dash, a line-end character (LF, CR, FF), then any white space
+    par = P.OmniParser()
+    subs = _sub_patterns(P.OmniParser.parse, par)
+    cont = [x for x in subs if x[1] is not None and x[2] in ("''", '""')]
+    s.obl("regex:omni-continuation:exactly-one-removing-substitution-in-OmniParser.parse", DISCHARGED if len(cont) == 1 and len(subs) == 1 else FAILED,
+          "ground", detail=str(subs))
+    if cont:
+        pat = cont[0][1]
+        spec = "-[\n\r\f]" + PYWS_ALL + "*"
+
+        def native(w):
+            got = re.fullmatch(pat, w) is not None
+            want = re.fullmatch(spec, w) is not None
+            try:
+                loaded = dict(P.OmniParser().parse("a = x" + w + "y\nEND"))
+            except Exception as e:   # noqa
+                loaded = repr(e)
+            return got != want, {"code_matches": got, "spec_matches": want, "loads('a = x'+w+'y')": repr(loaded)[:80]}
+        both("omni-continuation", pat, spec, "default loader: the dash-continuation pattern differs from '-<line end><white space>*'", native)
+    # ODLDecoder.decode_quoted_string, for the ODL, PDS3 and Omni decoders
+    for dname, dec in (("ODL", D.ODLDecoder()), ("PDS3", D.PDSLabelDecoder()), ("Omni", D.OmniDecoder())):
+        g = dec.grammar
+        subs = _sub_patterns(D.ODLDecoder.decode_quoted_string, dec)
+        rm = [x for x in subs if x[1] is not None and x[2] in ("''", '""')]
+        fold = [x for x in subs if x[1] is not None and x[2] in ("' '", '" "')]
+        s.obl(f"regex:{dname}:quoted-string:one-continuation-and-one-folding-substitution",
+              DISCHARGED if len(rm) == 1 and len(fold) == 1 and len(subs) == 2 else FAILED, "ground", detail=str(subs))
+        fe, ws = _cls(g.format_effectors), _cls(g.whitespace)
+        if rm:
+            def native_c(w, pat=rm[0][1], spec=f"-{fe}{ws}*", dec=dec):
+                got, want = re.fullmatch(pat, w) is not None, re.fullmatch(spec, w) is not None
+                return got != want, {"code_matches": got, "spec_matches": want,
+                                     "decode_quoted_string": repr(dec.decode_quoted_string('"x' + w + 'y"'))[:60]}
+            both(f"{dname}:quoted-continuation", rm[0][1], f"-{fe}{ws}*",
+                 f"{dname}: the quoted-string continuation pattern differs from '-<format effector><white space of the grammar>*'", native_c)
+        if fold:
+            def native_f(w, pat=fold[0][1], spec=f"{ws}+", dec=dec):
+                got, want = re.fullmatch(pat, w) is not None, re.fullmatch(spec, w) is not None
+                return got != want, {"code_matches": got, "spec_matches": want,
+                                     "decode_quoted_string": repr(dec.decode_quoted_string('"x' + w + 'y"'))[:60]}
+            both(f"{dname}:white-space-folding", fold[0][1], f"{ws}+",
+                 f"{dname}: the folding pattern differs from 'one or more white-space characters of the grammar'", native_f)
+    s.functions += ["pvl.parser.OmniParser.parse (continuation pre-pass)", "pvl.decoder.ODLDecoder.decode_quoted_string (patterns)"]
+    s.assumptions += ["re.sub(pattern, repl, text) replaces the leftmost non-overlapping matches (CPython); only the languages of the "
+                      "patterns are decided here, and that each function has exactly these substitutions",
+                      "\\s in a str pattern = Python white space within latin-1"]
+    s.seconds = time.time() - t0
+    return s
